@@ -61,6 +61,11 @@ def eval_pred(e, env, module):
         raise Undecidable('comparison')
     if isinstance(e, ast.Attribute) and isinstance(e.value, ast.Name) and e.value.id in env and isinstance(env[e.value.id], dict):
         return env[e.value.id][e.attr]
+    if isinstance(e, ast.Attribute) and isinstance(e.value, ast.Name) and module.imports.get(e.value.id, '') == 're' and \
+            e.attr.isupper():
+        return getattr(re, e.attr)
+    if isinstance(e, ast.BinOp) and isinstance(e.op, ast.BitOr):
+        return eval_pred(e.left, env, module) | eval_pred(e.right, env, module)
     if isinstance(e, ast.Call):
         f = e.func
         args = [eval_pred(a, env, module) for a in e.args]
